@@ -14,5 +14,7 @@ Proof.
                    if forallb (fun b => validate_fs b regionOffset (add64 regionOffset regionSize)) mb
                    then @LDone bool (option (Z * Z * bool)) (hs || existsb (fun b => bfs b >? 0) mb)
                    else LReturn None) k_step_T;
-    k_step_T; k_auto k_step_T].
+    k_step_T; k_auto k_step_T
+  | (* the loop no longer carries the flag: plain induction *)
+    k_open_T; k_auto k_step_T ].
 Qed.
